@@ -616,7 +616,7 @@ def configs_c13(tier):
     from ..configs import RAT_SPECTRA, RAT_SPECTRA_ALT, CPLX_SPECTRA
 
     cfgs = []
-    layouts = [[1, 1], [1, 2], [2, 1], [1, 1, 1]] + ([[2, 2], [1, 1, 2], [3], [1, 3]] if tier == "thorough" else [])
+    layouts = [[1, 1], [1, 2], [2, 1], [1, 1, 1]] + ([[2, 2], [1, 1, 2], [1, 3], [2, 1, 1], [1, 1, 1, 1]] if tier == "thorough" else [])
     rels = ["scale1", "scale2", "merge", "permute", "vanishing", "power2"] + (["power3", "permute3"] if tier == "thorough" else [])
     for herm in (True, False):
         for sizes in layouts:
@@ -634,6 +634,10 @@ def configs_c13(tier):
                 if N <= 3 and r in ("scale1", "merge", "permute"):
                     cfgs.append(dict(carrier="B", hermitian=herm, sizes=sizes, spectrum="sym", relation=r, max_order=2, complex_spectrum=False))
     # masks / full diagonalisation on carrier A
+    if tier == "thorough":
+        for r in ("scale1", "scale2", "merge", "permute", "vanishing", "power2"):
+            cfgs.append(dict(carrier="A", hermitian=True, sizes=[3], spectrum=["0", "1", "2"], relation=r, max_order=3 if r != "power2" else 2))
+            cfgs.append(dict(carrier="A", hermitian=False, sizes=[2, 1], spectrum=["0", "2", "1"], relation=r, max_order=3 if r != "power2" else 2, fd=[0, 1]))
     for r in ("scale2", "merge", "permute", "vanishing"):
         cfgs.append(dict(carrier="A", hermitian=True, sizes=[2, 1], spectrum=["0", "2", "1"], relation=r, max_order=3, fd=[0]))
         cfgs.append(dict(carrier="A", hermitian=True, sizes=[3], spectrum=["0", "1", "2"], relation=r, max_order=2,
